@@ -23,6 +23,7 @@ inductive GoErr where
   | status (code : UInt16)     -- an `internal.StatusCode` used as an error
   | io                         -- the reader ran out / failed (`io.ReadFull` did not fill the buffer)
   | named (name : String)      -- a package-level error value (`ErrTextEncoding`, …)
+  | coded (code : UInt16)      -- an `*internal.Error` carrying that status code (`internal.NewError(code, …)`)
 deriving Repr, DecidableEq
 
 /-- `a[i]` for a constant `i` (in range by Go's compile-time check for arrays) -/
